@@ -14,6 +14,8 @@ func main() {
 	switch os.Args[1] {
 	case "C20":
 		runC20()
+	case "C18B":
+		runC18B()
 	default:
 		fmt.Fprintln(os.Stderr, "unknown property", os.Args[1])
 		os.Exit(64)
